@@ -156,6 +156,10 @@ func RunSharded(c *Ctx, name string, total, procs int, timeout time.Duration) er
 	outs := make([]shardOut, procs)
 	errs := make([]error, procs)
 	var wg sync.WaitGroup
+	// a violation found by one shard decides the check: the others (one of which may be
+	// stuck inside the very defect) are stopped instead of being waited for
+	stop := make(chan struct{})
+	var stopOnce sync.Once
 	for i := 0; i < procs; i++ {
 		wg.Add(1)
 		go func(i int) {
@@ -176,6 +180,10 @@ func RunSharded(c *Ctx, name string, total, procs int, timeout time.Duration) er
 					errs[i] = fmt.Errorf("shard %d: %v: %s", i, err, tail(stderr.String(), 2000))
 					return
 				}
+			case <-stop:
+				_ = cmd.Process.Kill()
+				outs[i] = shardOut{}
+				return
 			case <-time.After(timeout):
 				_ = cmd.Process.Kill()
 				errs[i] = fmt.Errorf("shard %d: timeout after %v", i, timeout)
@@ -187,6 +195,8 @@ func RunSharded(c *Ctx, name string, total, procs int, timeout time.Duration) er
 			}
 			if err := json.Unmarshal(line, &outs[i]); err != nil {
 				errs[i] = fmt.Errorf("shard %d: bad output: %v", i, err)
+			} else if outs[i].Violation != nil {
+				stopOnce.Do(func() { close(stop) })
 			}
 		}(i)
 	}
